@@ -23,18 +23,20 @@ FramesOK(got, want) ==
   /\ Len(got) = Len(want)
   /\ \A j \in 1..Len(want) : got[j][1] = want[j].x /\ got[j][2] = want[j].id /\ got[j][3] = want[j].off
 
-ItemVerdict(kind, got, want) ==
+\* full: the listing was read undisturbed (the properties pin the process column and the attribution too);
+\* otherwise only what does not depend on the tables / image table shared by all listings of the object
+ItemVerdict(kind, got, want, full) ==
   IF kind \in {"kev", "fkev"} THEN
        IF got.k # want.k THEN "wrong-event"
        ELSE IF got.name # want.name THEN "wrong-name-table"
-       ELSE IF ~ProcOK(got.proc, want.proc) THEN "process-column"
+       ELSE IF full /\ ~ProcOK(got.proc, want.proc) THEN "process-column"
        ELSE "ok"
   ELSE IF kind = "tr" THEN
        IF got.k # want.k \/ got.first # want.first THEN "wrong-trace"
-       ELSE IF ~ProcOK(got.proc, want.proc) THEN "process-column"
+       ELSE IF full /\ ~ProcOK(got.proc, want.proc) THEN "process-column"
        ELSE "ok"
   ELSE IF got.start # want.start THEN "wrong-sample"
-       ELSE IF ~FramesOK(got.frames, want.frames) THEN "attribution"
+       ELSE IF full /\ ~FramesOK(got.frames, want.frames) THEN "attribution"
        ELSE "ok"
 
 Disturb(gs, except) == [j \in 1..Len(gs) |-> IF j # except /\ ~gs[j].done THEN [gs[j] EXCEPT !.clean = FALSE] ELSE gs[j]]
@@ -58,11 +60,17 @@ ActStep(o, tables, W, a) ==
            r == Adv(W.so, g, dump, tables)
            v == IF r.found /\ ~a.found THEN "listing-ended-early"
                 ELSE IF ~r.found /\ a.found THEN "listing-has-extra-item"
-                ELSE IF r.found THEN ItemVerdict(g.kind, a.item, r.item)
+                ELSE IF r.found THEN ItemVerdict(g.kind, a.item, r.item, g.clean)
                 ELSE "ok"
+           \* a process filter reads the shared tables: once such a listing was disturbed the properties no longer say
+           \* what it selects - it is dropped from the comparison (like a listing whose options were changed)
+           unclaimed == ~g.clean /\ g.cfg.fproc.kind # "none"
            ref == AtomicOut(r.g, dump, tables)
            W1 == [so |-> r.so, gens |-> [Disturb(W.gens, a.g) EXCEPT ![a.g] = r.g]]
-       IN IF g.dirty \/ g.done THEN [v |-> "harness-advanced-a-dead-listing", W |-> W]
+       IN IF g.done THEN [v |-> "harness-advanced-a-dead-listing", W |-> W]
+          \* a listing that is no longer claimed still runs in the code and still disturbs the others
+          ELSE IF g.dirty THEN [v |-> "ok", W |-> [W EXCEPT !.gens = Disturb(@, a.g)]]
+          ELSE IF unclaimed THEN [v |-> "ok", W |-> [W EXCEPT !.gens = [Disturb(@, a.g) EXCEPT ![a.g].dirty = TRUE]]]
           ELSE IF v # "ok" THEN [v |-> v, W |-> W]
           ELSE IF r.found THEN [v |-> "ok", W |-> W1]
           \* the listing is complete: compare with the reference (properties of Sessions_MC on the recorded session)
